@@ -861,6 +861,10 @@ class TdmsChannel(object):
             num_values = max(0, num_values)
             channel_data = get_data_receiver(self, num_values, self._raw_timestamps, self._memmap_dir)
 
+        if channel_data is None:
+            # Channel has no data type so there is no data to read
+            return None
+
         with Timer(log, "Read data for channel"):
             # Now actually read all the data
             for chunk in self._reader.read_raw_data_for_channel(self.path, offset, length):
